@@ -43,6 +43,13 @@ def cases(tier, seed):
         scn = dict(id='mru0-%d' % idx, seed=idx, policy=['fair', 'rr', 'eager', 'burst'][idx], capacity=None, cfg_a=cfg_a, cfg_b=cfg_b,
                    sends=[dict(side='A', length=50, at=-1), dict(side='A', length=0, at=2), dict(side='A', length=5, at=4), dict(side='B', length=7, at=3)])
         out.append(dict(id=scn['id'], kind='scn', scn=scn, seed=seed))
+    # a bundle source that fails to read in the middle of a multi-segment transfer (a file on a medium that goes away), with other
+    # bundles queued behind it: whatever the endpoint does about it, what it writes stays a legal sequence
+    for idx, (fail_read, permanent) in enumerate(((2, False), (2, True), (3, True), (3, False), (1, True))):
+        scn = dict(id='readfault-%d' % idx, seed=idx, policy=['fair', 'eager', 'rr', 'burst', 'fair'][idx], capacity=None,
+                   cfg_a=dict(segment_size_tx_initial=1000), cfg_b={},
+                   sends=[dict(side='A', length=3500, at=-1), dict(side='A', length=200, at=-1), dict(side='B', length=50, at=5), dict(side='A', length=40, at=60)])
+        out.append(dict(id=scn['id'], kind='readfault', scn=scn, fail_read=fail_read, permanent=permanent, seed=seed))
     nrand = 18000 if tier == 'thorough' else 240
     block = 20
     for idx in range(0, nrand, block):
@@ -107,7 +114,40 @@ def run_case(case):
             violations.append(dict(key=None, what='%s%s' % (text, '' if cut is None else ' (terminate by %s at step %s)' % (who, cut)),
                                    detail=dict(scenario=scn, cut=cut, who=who)))
 
-    if case['kind'] == 'scn':
+    if case['kind'] == 'readfault':
+        import errno
+
+        class Flaky(object):
+            def __init__(self, inner, fail_read, permanent):
+                self._inner, self._fail, self._permanent, self._count = inner, fail_read, permanent, 0
+
+            def read(self, *args):
+                self._count += 1
+                if self._count == self._fail or (self._permanent and self._count > self._fail):
+                    raise OSError(errno.EIO, 'Input/output error')
+                return self._inner.read(*args)
+
+            def __getattr__(self, name):
+                return getattr(self._inner, name)
+
+        def spoil(run):
+            hdl = run.ends['A'].hdl
+            for _tid, item in sorted(hdl._tx_map.items())[:1]:
+                item.file = Flaky(item.file, case['fail_read'], case['permanent'])
+                obs['read_faults_armed'] = obs.get('read_faults_armed', 0) + 1
+        run, result = scen.execute(case['scn'], max_steps=100000, actions=[dict(at=-1, fn=spoil)])
+        obs['runs'] += 1
+        evaluations += 1
+        if result == 'quiescent':
+            problems, nontrivial = check_run(run, obs)
+            if nontrivial:
+                classes.add('readfault|%s|%s' % (case['fail_read'], case['permanent']))
+            for text in problems:
+                violations.append(dict(key=None, what='%s (the source of the first bundle fails on read %d%s)' % (
+                    text, case['fail_read'], ' and from then on' if case['permanent'] else ''), detail=dict(scenario=case['scn'])))
+        else:
+            obs['budget_exhausted'] += 1
+    elif case['kind'] == 'scn':
         one(case['scn'])
         rng = random.Random(case['seed'] * 31 + hash(case['id']) % 1000)
         one(case['scn'], rng.choice([5, 20, 60, 150]), rng.choice(['A', 'B', 'both']))
